@@ -655,6 +655,37 @@ func (rw *regWorld) apply(op string, judge bool) (viol []string, digest string, 
 				}
 			}
 		}
+	case "idrm":
+		// idrm:<kind>:<peer>: peer sends a delete call that carries only the id of an entry of the OTHER peer (ids are
+		// readable by everybody from the subscription / binding data) and no addresses: whatever a stack does with
+		// id-only deletes of the owner, this one names no entry of the sender — nothing is removed, one error result
+		kind, p := f[1], f[2]
+		pe := w.Peers[p]
+		other := map[string]string{"A": "B", "B": "A"}[p]
+		if !m.conn[p] || !m.conn[other] || w.Peers[other] == nil {
+			break
+		}
+		var cmd model.CmdType
+		found := false
+		if kind == "s" {
+			if l := w.L.SubscriptionManager().Subscriptions(w.Peers[other].Dev); len(l) > 0 {
+				id := model.SubscriptionIdType(l[0].Id)
+				cmd = model.CmdType{NodeManagementSubscriptionDeleteCall: &model.NodeManagementSubscriptionDeleteCallType{SubscriptionDelete: &model.SubscriptionManagementDeleteCallType{SubscriptionId: &id}}}
+				found = true
+			}
+		} else {
+			if l := w.L.BindingManager().Bindings(w.Peers[other].Dev); len(l) > 0 {
+				id := model.BindingIdType(l[0].Id)
+				cmd = model.CmdType{NodeManagementBindingDeleteCall: &model.NodeManagementBindingDeleteCallType{BindingDelete: &model.BindingManagementDeleteCallType{BindingId: &id}}}
+				found = true
+			}
+		}
+		if !found {
+			break
+		}
+		d := pe.Datagram(pe.NM(), world.LocalNM(), model.CmdClassifierTypeCall, true, nil, cmd)
+		exp = append(exp, expOut{conn: cn(p), class: "result", src: world.AddrStr(world.LocalNM()), dst: world.AddrStr(pe.NM()), ref: int64(*d.Header.MsgCounter), err: 1})
+		pe.Deliver(d)
 	case "sub", "bind", "unsub", "unbind":
 		p, c, s := f[1], f[2], f[3]
 		pe := w.Peers[p]
